@@ -289,6 +289,10 @@ def run (E : Engine σ α) (cfg : Cfg α β) : St σ → List (Op β) → St σ 
 
 def monoCfg (cfg : Cfg α β) : Cfg α β := { cfg with ch := 1 }
 
+/-- a 1-channel configuration whose conversion is `mc` (for a seed-free conversion `mc = cfg.cout` and this is `monoCfg cfg`;
+    with dither `mc` is "channel `c`'s view of the shared dither stream", see `Lemmas.chanView`) -/
+def monoCfgC (cfg : Cfg α β) (mc : Nat → List α → List β × Nat × Nat) : Cfg α β := { cfg with ch := 1, cout := mc }
+
 /-- the block a 1-channel resampler is handed when it is "fed channel `c` alone" (`n` = frames in the block) -/
 def projIn (cfg : Cfg α β) (c n : Nat) : InBuf β → InBuf β
   | .inter flat => .inter (deinterleave cfg.dflt cfg.ch n flat c)
